@@ -405,29 +405,33 @@ def table_dispatch(rep):
     saved_default = cspuz.config.default_backend
     try:
         for default in list(classes) + ["nonsense"]:
-            cspuz.config.default_backend = default
             for arg in [None] + list(classes) + ["nonsense", "class"]:
                 for method in ("find_answer", "solve"):
-                    rep.finite_tables += 1
-                    del log[:]
-                    s = Solver()
-                    x = s.bool_var()
-                    s.ensure(x)
-                    s.add_answer_key(x)
-                    be = getattr(SL, "CSugarBackend") if arg == "class" else arg
-                    want = "csugar" if arg == "class" else (arg if arg is not None else default)
-                    with warnings.catch_warnings():
-                        warnings.simplefilter("ignore")
-                        try:
-                            r = getattr(s, method)(backend=be) if be is not None else getattr(s, method)()
-                            got = [n for (k, n) in log if k == "init"]
-                        except ValueError:
-                            got = ValueError
-                    exp = ValueError if want == "nonsense" else [want]
-                    if got != exp:
-                        rep.counterexample("dispatch", "%s(backend=%r) with config.default_backend=%r instantiated %r, expected %r" % (
-                            method, arg, default, got, exp), {"engine": "table", "what": "dispatch", "arg": arg, "default": default, "method": method}, True)
-                        return
+                    for created_before in (False, True):
+                        # history: the Solver may have been created while another default was configured
+                        rep.finite_tables += 1
+                        del log[:]
+                        cspuz.config.default_backend = ("z3" if default != "z3" else "sugar") if created_before else default
+                        s = Solver()
+                        x = s.bool_var()
+                        s.ensure(x)
+                        s.add_answer_key(x)
+                        cspuz.config.default_backend = default
+                        be = getattr(SL, "CSugarBackend") if arg == "class" else arg
+                        want = "csugar" if arg == "class" else (arg if arg is not None else default)
+                        with warnings.catch_warnings():
+                            warnings.simplefilter("ignore")
+                            try:
+                                getattr(s, method)(backend=be) if be is not None else getattr(s, method)()
+                                got = [n for (k, n) in log if k == "init"]
+                            except ValueError:
+                                got = ValueError
+                        exp = ValueError if want == "nonsense" else [want]
+                        if got != exp:
+                            rep.counterexample("dispatch", "%s(backend=%r) with config.default_backend=%r (Solver created %s the assignment) "
+                                               "instantiated %r, expected %r" % (method, arg, default, "before" if created_before else "after", got, exp),
+                                               {"engine": "table", "what": "dispatch", "arg": arg, "default": default, "method": method}, True)
+                            return
     finally:
         cspuz.config.default_backend = saved_default
         for (mod, cn), base in saved.items():
@@ -450,7 +454,7 @@ def run(tier, only=None):
                   "_get_backend_by_name": "every string of length <= 15 (CrossHair)",
                   "Config": "2^4 import-availability combinations x 9 backend settings x 9 x 4 flag spellings x infer_from_env (finite table)",
                   "precedence": "6 graph constraints x argument {None,True,False} x both config flags (finite table)",
-                  "dispatch": "7 defaults x 9 backend arguments x {find_answer, solve} (finite table)"}
+                  "dispatch": "7 defaults x 9 backend arguments x {find_answer, solve} x {Solver created before / after the default was assigned} (finite table)"}
     rep.outside = ["longer backend names (the dispatch is a chain of == comparisons)", "csugar_binding / backend_path / solver_timeout plumbing"]
     rep.assumptions += ["cvc5 1.0.3 (binary on PATH) is sound for QF_SLIA with str.to_lower", "CrossHair soundness"]
     return rep.finish("The boolean parser's AST is translated to SMT-LIB strings and cvc5 shows, for all strings, that each path's outcome equals "
